@@ -6,6 +6,9 @@
 #include "clock.h"
 #include <AceTime.h>
 #include <new>
+#include <unistd.h>
+#include <signal.h>
+#include <sys/wait.h>
 
 #if ACE_TIME_VERIF_HOOKS
 extern "C" { unsigned long ace_time_verif_basic_dropped = 0; }
@@ -115,6 +118,12 @@ static bool equalAns(const Ans& a, const Ans& b) {
   if (a.err != b.err || a.n != b.n || a.s != b.s) return false;
   for (int i = 0; i < a.n; i++) if (a.v[i] != b.v[i]) return false;
   return true;
+}
+
+static uint64_t answerHash(const std::string& a) {
+  uint64_t h = 1469598103934665603ULL;
+  for (size_t i = 0; i < a.size(); i++) { h ^= (uint8_t)a[i]; h *= 1099511628211ULL; }
+  return h;
 }
 
 struct Query {
@@ -323,7 +332,7 @@ struct SavedForm {
   Desc d;   // what the simulator knows was saved
 };
 
-struct TzOpts { bool armC08 = false, armC16 = false, armC09 = false; };
+struct TzOpts { bool armC08 = false, armC16 = false, armC09 = false; bool freshOnly = false; };
 
 class TzDevice {
  public:
@@ -339,6 +348,11 @@ class TzDevice {
   SavedForm store[kMaxStore];   // durable: survives REBOOT
   Query lastQ;
   bool sawNontrivial = false;
+  std::vector<std::pair<int, uint64_t> > freshLog;   // (op index, hash of the fresh oracle's answer): pristine-process comparison
+  unsigned questionStride = 1, questionCounter = 0, questionsChecked = 0;   // pristine side, batch mode: a sample of the questions
+  bool decoyFirst = false;   // this run also exercises the decoy BEFORE the client's query (CFG TZ decoyfirst=1)
+  std::map<std::string, std::pair<std::string, int> > freshSeen;   // C08: what a fresh zone answered to (zone, query, argument) earlier in this run
+  void decoy(const Desc& d, const Query& q);
   std::map<std::string, int> errorSeen;   // C09 M2': (zone, query, argument) -> op index of an earlier error answer
   ClockDevice* clockDev = nullptr;
 
@@ -410,6 +424,23 @@ void TzDevice::buildRegistry(MgrSlot& m, const std::vector<std::string>& t) {
   for (size_t i = 0; i < idx.size(); i++) m.registry.push_back(shippedZone(ext, idx[i]));
 }
 
+// State that is shared by ALL processors (a function-local static, a class static, a global scratch buffer) is
+// invisible to a comparison of "client" against "fresh processor" made back to back: the fresh one would be asked
+// right after the client and see the same shared state. So before the fresh oracle is consulted, an unrelated
+// processor of the same database is driven through the same kind of query for ANOTHER zone and ANOTHER instant:
+// whatever is shared now holds the decoy's leftovers, not the client's.
+void TzDevice::decoy(const Desc& d, const Query& q) {
+  if (!isZone(d.kind)) return;
+  bool ext = isExt(d.kind);
+  int full = ext ? zonedbx::kZoneRegistrySize : zonedb::kZoneRegistrySize;
+  long other = (d.zone >= 0 ? d.zone : 0) + 97;
+  Desc dd; dd.kind = ext ? K_XDIRECT : K_BDIRECT; dd.zi = shippedZone(ext, other % full);
+  Query dq = q;
+  if (dq.byEpoch()) dq.e = (dq.e == LocalDate::kInvalidEpochSeconds) ? 0 : ((dq.e / 2 + 40000000) % 1500000000);
+  if (dq.byComponents()) { dq.y = 2000 + (dq.y + 7) % 50; dq.mo = 1 + (dq.mo + 5) % 12; dq.d = 1 + (dq.d + 11) % 28; dq.h = (dq.h + 9) % 24; dq.mi %= 60; dq.s %= 60; }
+  (void)fresh(dd, dq, (uint8_t)(poison ^ 0x77));
+}
+
 Ans TzDevice::fresh(const Desc& d, const Query& q, uint8_t pz) {
   if (isBasic(d.kind)) {
     Storage st;
@@ -457,6 +488,33 @@ void TzDevice::doQuery(int c, const Query& q, int opIndex, Verdict& v, Coverage&
   if (cl.d.kind == K_EMPTY) return;
   cov.count("tz.queries");
   const Desc d = cl.d;
+  if (opts.freshOnly) {
+    // pristine reference process: only the fresh oracle's questions are asked, in order; no client, no decoy
+    // Each question is answered in a process of its own (forked from this one, which has executed no query), so
+    // that not even an earlier fresh question of the same run can have left anything behind.
+    if (opts.armC08 && (questionStride <= 1 || (questionCounter++ % questionStride == 0 && questionsChecked++ < 16))) {
+      uint64_t h = 0;
+      int c[2];
+      if (pipe(c) == 0) {
+        pid_t k = fork();
+        if (k == 0) {
+          close(c[0]);
+          Ans f = fresh(d, q, (uint8_t)(poison ^ 0x3c));
+          uint64_t hh = answerHash(f.show());
+          if (write(c[1], &hh, sizeof hh) < 0) {}
+          _exit(0);
+        }
+        close(c[1]);
+        if (k > 0) {
+          if (read(c[0], &h, sizeof h) != (ssize_t)sizeof h) h = 0xdeadULL;   // the child died: counts as a different answer
+          int st; waitpid(k, &st, 0);
+        }
+        close(c[0]);
+      }
+      freshLog.push_back(std::make_pair(opIndex, h));
+    }
+    return;
+  }
   int startYear = 2000, untilYear = 2050;
   if (isBasic(d.kind)) { basic::ZoneInfoBroker b((const basic::ZoneInfo*)d.zi); startYear = b.startYear(); untilYear = b.untilYear(); }
   if (isExt(d.kind)) { extended::ZoneInfoBroker b((const extended::ZoneInfo*)d.zi); startYear = b.startYear(); untilYear = b.untilYear(); }
@@ -496,6 +554,12 @@ void TzDevice::doQuery(int c, const Query& q, int opIndex, Verdict& v, Coverage&
   if (d.kind == K_XDIRECT && opts.armC09 && cl.proc >= 0 && xproc[cl.proc].p)
     xproc[cl.proc].p->resetTransitionHighWater();
 
+  // In some runs (decoyfirst=1) the unrelated decoy also runs BEFORE the client: a static that the FIRST writer wins is
+  // then owned by a foreign zone by the time client and fresh processor are asked, and only the pristine reference
+  // process still answers correctly. (Not in every run: a decoy in front would also overwrite a static that the LAST
+  // writer wins and so hide a dependence between two consecutive client queries.)
+  if (opts.armC08 && decoyFirst) decoy(d, q);
+
   // the real query
   Ans r = ask(cl.tz, q);
 
@@ -508,7 +572,26 @@ void TzDevice::doQuery(int c, const Query& q, int opIndex, Verdict& v, Coverage&
 
   if (opts.armC08) {
     uint8_t p1 = (uint8_t)(poison ^ 0x3c), p2 = (uint8_t)~p1;
+    decoy(d, q);
     Ans f1 = fresh(d, q, p1), f2 = fresh(d, q, p2);
+    freshLog.push_back(std::make_pair(opIndex, answerHash(f1.show())));
+    if (isZone(d.kind) && equalAns(f1, f2)) {
+      // a fresh zone must also agree with what a fresh zone answered to the same question earlier in this run
+      std::string key = fmt("%p|%s|%lld|%d-%d-%d-%d-%d-%d", d.zi, q.kind.c_str(), (long long)(q.byEpoch() ? q.e : 0),
+          q.byComponents() ? q.y : 0, q.byComponents() ? q.mo : 0, q.byComponents() ? q.d : 0,
+          q.byComponents() ? q.h : 0, q.byComponents() ? q.mi : 0, q.byComponents() ? q.s : 0);
+      std::string now = f1.show();
+      std::map<std::string, std::pair<std::string, int> >::iterator it = freshSeen.find(key);
+      if (it == freshSeen.end()) freshSeen[key] = std::make_pair(now, opIndex);
+      else {
+        cov.count("c08.fresh_repeat_checks");
+        if (it->second.first != now) {
+          v.fail("c08-fresh-drift", fmt("a freshly constructed %s time zone answers %s to %s now, but a freshly constructed one "
+              "answered %s to the same question at op %d of this run: state shared between processors", zoneName(d.kind, d.zi),
+              now.c_str(), q.kind.c_str(), it->second.first.c_str(), it->second.second), opIndex);
+        }
+      }
+    }
     if (!equalAns(f1, f2)) {
       v.fail("c08-fresh-undefined", fmt("two fresh %s time zones for %s in storage filled with 0x%02x / 0x%02x "
           "disagree on %s: %s vs %s (the code read memory it never wrote)", kindName(d.kind),
@@ -637,7 +720,7 @@ static bool parseQuery(const std::vector<std::string>& t, size_t at, Query& q) {
 void TzDevice::exec(const std::vector<std::string>& t, int opIndex, Verdict& v, Coverage& cov, Bitmap* bm) {
   const std::string& op = t[0];
   if (op == "CFG") {
-    if (t.size() > 1 && t[1] == "TZ") poison = (uint8_t)kvInt(t, "poison", 0xA5);
+    if (t.size() > 1 && t[1] == "TZ") { poison = (uint8_t)kvInt(t, "poison", 0xA5); decoyFirst = kvInt(t, "decoyfirst", 0) != 0; }
     return;
   }
   cov.count("ops");
@@ -922,6 +1005,193 @@ void TzDevice::exec(const std::vector<std::string>& t, int opIndex, Verdict& v, 
   }
 }
 
+// ---------------------------------------------------------------------------
+// Pristine reference process. A "fresh" processor built in a process that has already executed thousands of runs is
+// only as fresh as function-local and class statics allow: a lazily initialised static that the first writer wins
+// would poison client and fresh processor alike for the rest of the process. pristineInit() forks a zygote before
+// anything has run; for a run it is handed the trace, forks a child that asks ONLY the fresh oracle's questions in
+// order, and returns the running digests. They must equal the in-process fresh oracle's.
+static int g_zyReq = -1, g_zyResp = -1;
+static bool g_zyPending = false;
+static unsigned g_questionStride = 1;   // set in the batch delegate's children: sample the questions
+
+static void runTrace(const Trace& tr, TzDevice& dev, ClockDevice& clockDev, const TzOpts& o, Verdict& v, Coverage& cov, Bitmap* bm);
+
+static bool writeAll(int fd, const void* p, size_t n) {
+  const char* c = (const char*)p;
+  while (n) { ssize_t k = write(fd, c, n); if (k <= 0) return false; c += k; n -= (size_t)k; }
+  return true;
+}
+static bool readAll(int fd, void* p, size_t n) {
+  char* c = (char*)p;
+  while (n) { ssize_t k = read(fd, c, n); if (k <= 0) return false; c += k; n -= (size_t)k; }
+  return true;
+}
+
+void pristineInit() {
+  if (getenv("SIM_NO_PRISTINE")) return;
+  int a[2], b[2];
+  if (pipe(a) != 0 || pipe(b) != 0) return;
+  pid_t z = fork();
+  if (z < 0) return;
+  if (z > 0) { close(a[0]); close(b[1]); g_zyReq = a[1]; g_zyResp = b[0]; return; }
+  // zygote: never runs a trace itself
+  close(a[1]); close(b[0]);
+  signal(SIGALRM, SIG_DFL);
+  for (;;) {
+    uint32_t n;
+    if (!readAll(a[0], &n, sizeof n)) _exit(0);
+    std::string text(n, '\0');
+    if (n && !readAll(a[0], &text[0], n)) _exit(0);
+    int c[2];
+    if (pipe(c) != 0) _exit(0);
+    pid_t g = fork();
+    if (g == 0) {
+      close(c[0]);
+      alarm(20);
+      Trace tr;
+      size_t pos = 0;
+      bool first = true;
+      while (pos < text.size()) {
+        size_t e = text.find('\n', pos);
+        if (e == std::string::npos) e = text.size();
+        std::string line = text.substr(pos, e - pos);
+        pos = e + 1;
+        if (line.empty()) continue;
+        if (first && line.compare(0, 8, "PROFILE ") == 0) { tr.profile = line.substr(8); first = false; continue; }
+        first = false;
+        tr.lines.push_back(line);
+      }
+      TzOpts o; o.armC08 = true; o.freshOnly = true;
+      TzDevice* dev = new TzDevice(o);
+      dev->questionStride = g_questionStride;   // the batch delegate samples the questions, replay checks all
+      ClockOpts co; ClockDevice clockDev(co);
+      Verdict v; Coverage cov;
+      runTrace(tr, *dev, clockDev, o, v, cov, nullptr);
+      uint32_t m = (uint32_t)dev->freshLog.size();
+      writeAll(c[1], &m, sizeof m);
+      for (uint32_t i = 0; i < m; i++) {
+        int32_t op = dev->freshLog[i].first; uint64_t dg = dev->freshLog[i].second;
+        writeAll(c[1], &op, sizeof op); writeAll(c[1], &dg, sizeof dg);
+      }
+      _exit(0);
+    }
+    close(c[1]);
+    std::string resp;
+    char buf[4096];
+    ssize_t k;
+    while ((k = read(c[0], buf, sizeof buf)) > 0) resp.append(buf, (size_t)k);
+    close(c[0]);
+    int st;
+    waitpid(g, &st, 0);
+    uint32_t rn = (uint32_t)resp.size();
+    if (!writeAll(b[1], &rn, sizeof rn) || (rn && !writeAll(b[1], resp.data(), rn))) _exit(0);
+  }
+}
+
+static int g_dgReq = -1, g_dgResp = -1;
+
+void delegateInit() {
+  if (getenv("SIM_NO_PRISTINE")) return;
+  int a[2], b[2];
+  if (pipe(a) != 0 || pipe(b) != 0) return;
+  pid_t z = fork();
+  if (z < 0) return;
+  if (z > 0) { close(a[0]); close(b[1]); g_dgReq = a[1]; g_dgResp = b[0]; return; }
+  close(a[1]); close(b[0]);
+  signal(SIGALRM, SIG_DFL);
+  for (;;) {
+    uint32_t n;
+    if (!readAll(a[0], &n, sizeof n)) _exit(0);
+    std::string text(n, '\0');
+    if (n && !readAll(a[0], &text[0], n)) _exit(0);
+    int c[2];
+    if (pipe(c) != 0) _exit(0);
+    pid_t g = fork();
+    if (g == 0) {
+      close(c[0]);
+      alarm(40);
+      g_questionStride = 4;
+      pristineInit();   // this process is still pristine: its own reference zygote
+      Trace tr;
+      size_t pos = 0;
+      bool first = true;
+      while (pos < text.size()) {
+        size_t e = text.find('\n', pos);
+        if (e == std::string::npos) e = text.size();
+        std::string line = text.substr(pos, e - pos);
+        pos = e + 1;
+        if (line.empty()) continue;
+        if (first && line.compare(0, 8, "PROFILE ") == 0) { tr.profile = line.substr(8); first = false; continue; }
+        first = false;
+        tr.lines.push_back(line);
+      }
+      Verdict v; Coverage cov; bool nt = false;
+      execTz(tr, v, cov, nt, nullptr);
+      std::string out = v.violated ? (v.vclass + "\n" + fmt("%d", v.opIndex) + "\n" + v.message) : std::string();
+      uint32_t m = (uint32_t)out.size();
+      writeAll(c[1], &m, sizeof m);
+      if (m) writeAll(c[1], out.data(), m);
+      if (g_zyReq >= 0) close(g_zyReq);   // lets the inner zygote exit
+      _exit(0);
+    }
+    close(c[1]);
+    std::string resp;
+    char buf[4096];
+    ssize_t k;
+    while ((k = read(c[0], buf, sizeof buf)) > 0) resp.append(buf, (size_t)k);
+    close(c[0]);
+    int st;
+    waitpid(g, &st, 0);
+    if (resp.size() < 4) { uint32_t zero = 0; resp.assign((const char*)&zero, 4); }   // the delegate died: no verdict
+    if (!writeAll(b[1], resp.data(), resp.size())) _exit(0);
+  }
+}
+
+bool delegateRequest(const Trace& tr) {
+  if (g_dgReq < 0 || g_dgResp < 0) return false;
+  std::string text = tr.text();
+  uint32_t n = (uint32_t)text.size();
+  return writeAll(g_dgReq, &n, sizeof n) && writeAll(g_dgReq, text.data(), n);
+}
+
+bool delegateResponse(Verdict& v) {
+  uint32_t m = 0;
+  if (!readAll(g_dgResp, &m, sizeof m)) { g_dgResp = -1; return false; }
+  std::string out(m, '\0');
+  if (m && !readAll(g_dgResp, &out[0], m)) { g_dgResp = -1; return false; }
+  if (!m) return true;
+  size_t p1 = out.find('\n'), p2 = out.find('\n', p1 + 1);
+  if (p1 == std::string::npos || p2 == std::string::npos) return true;
+  v.fail(out.substr(0, p1), out.substr(p2 + 1), atoi(out.substr(p1 + 1, p2 - p1 - 1).c_str()));
+  return true;
+}
+
+static void pristineDrain() {
+  if (!g_zyPending) return;
+  g_zyPending = false;
+  uint32_t rn;
+  if (!readAll(g_zyResp, &rn, sizeof rn)) { g_zyResp = -1; return; }
+  std::string junk(rn, '\0');
+  if (rn) readAll(g_zyResp, &junk[0], rn);
+}
+
+static void runTrace(const Trace& tr, TzDevice& dev, ClockDevice& clockDev, const TzOpts& o, Verdict& v, Coverage& cov, Bitmap* bm) {
+  for (size_t i = 0; i < tr.lines.size() && !v.violated; i++) {
+    g_curOp = (int)i;
+    std::vector<std::string> t = splitWs(tr.lines[i]);
+    if (t.empty()) continue;
+    if (o.armC09) {
+      if ((t[0] == "CFG" && t.size() > 1 && t[1] == "CLOCK") || t[0] == "REF") { clockDev.configure(t); continue; }
+      if (clockDev.exec(t, (int)i, v, cov)) {
+        if (t[0] != "REBOOT") { ubAfterOp(v, (int)i, tr.lines[i]); continue; }   // REBOOT goes to both parts
+      }
+    }
+    dev.exec(t, (int)i, v, cov, bm);
+    ubAfterOp(v, (int)i, tr.lines[i]);
+  }
+}
+
 bool execTz(const Trace& tr, Verdict& v, Coverage& cov, bool& nontrivial, Bitmap* bm) {
   TzOpts o;
   o.armC08 = tr.profile == "tz-history";
@@ -935,18 +1205,42 @@ bool execTz(const Trace& tr, Verdict& v, Coverage& cov, bool& nontrivial, Bitmap
   ClockDevice clockDev(co);
   if (o.armC09) dev.clockDev = &clockDev;
   ace_time_verif_basic_dropped = 0;
-  for (size_t i = 0; i < tr.lines.size() && !v.violated; i++) {
-    g_curOp = (int)i;
-    std::vector<std::string> t = splitWs(tr.lines[i]);
-    if (t.empty()) continue;
-    if (o.armC09) {
-      if ((t[0] == "CFG" && t.size() > 1 && t[1] == "CLOCK") || t[0] == "REF") { clockDev.configure(t); continue; }
-      if (clockDev.exec(t, (int)i, v, cov)) {
-        if (t[0] != "REBOOT") { ubAfterOp(v, (int)i, tr.lines[i]); continue; }   // REBOOT goes to both parts
+  pristineDrain();   // a previous run may have been cut short (crash recovery) before collecting its answer
+  bool asked = false;
+  if (o.armC08 && g_zyReq >= 0 && g_zyResp >= 0) {
+    std::string text = tr.text();
+    uint32_t n = (uint32_t)text.size();
+    asked = writeAll(g_zyReq, &n, sizeof n) && writeAll(g_zyReq, text.data(), n);
+    g_zyPending = asked;
+  }
+  runTrace(tr, dev, clockDev, o, v, cov, bm);
+  if (asked) {
+    g_zyPending = false;
+    uint32_t rn = 0;
+    std::string resp;
+    if (readAll(g_zyResp, &rn, sizeof rn)) { resp.resize(rn); if (rn && !readAll(g_zyResp, &resp[0], rn)) resp.clear(); }
+    else g_zyResp = -1;
+    cov.count("c08.pristine_process_runs");
+    if (resp.size() >= 4) {
+      uint32_t m; memcpy(&m, resp.data(), 4);
+      std::map<int, uint64_t> mine;
+      for (size_t i = 0; i < dev.freshLog.size(); i++) mine[dev.freshLog[i].first] = dev.freshLog[i].second;
+      for (size_t i = 0; i < m && 4 + (i + 1) * 12 <= resp.size(); i++) {
+        int32_t op; uint64_t hh;
+        memcpy(&op, resp.data() + 4 + i * 12, 4); memcpy(&hh, resp.data() + 8 + i * 12, 8);
+        if (v.violated && op >= v.opIndex) break;   // an earlier violation wins
+        std::map<int, uint64_t>::iterator it = mine.find(op);
+        if (it == mine.end()) continue;
+        cov.count("c08.pristine_question_checks");
+        if (it->second != hh) {
+          Verdict v2;
+          v2.fail("c08-fresh-drift", fmt("the freshly constructed time zone asked at op %d answers differently in this process than "
+              "in a process where nothing has run before: state that outlives a processor (a static) is shared", op), op);
+          v = v2;
+          break;
+        }
       }
     }
-    dev.exec(t, (int)i, v, cov, bm);
-    ubAfterOp(v, (int)i, tr.lines[i]);
   }
   nontrivial = dev.sawNontrivial;
   return true;
@@ -1174,7 +1468,7 @@ struct Gen {
 
   Trace run(const std::string& profile) {
     tr.profile = profile;
-    line(fmt("CFG TZ poison=%u", (unsigned)drawPoison()));
+    line(fmt("CFG TZ poison=%u decoyfirst=%d", (unsigned)drawPoison(), rng.chance(1, 4) ? 1 : 0));
     if (mix.clock) {
       static const uint32_t kSync[] = {5, 60, 3600};
       line(fmt("CFG CLOCK sync=%u init=%u tmo=%u ref=%s bak=1 boot=%llu refbase=%lld rtc=%lld", kSync[rng.below(3)],
